@@ -1698,4 +1698,155 @@ theorem inv_run {fp : FdlParams} (hfp : FpOk fp) (ops : List Op) : ∀ (g : G), 
     | refused => exact ⟨(by intro h; cases h), (by intro h; cases h), (by intro g' h; cases h)⟩
 
 
+/-- A decline changes nothing but the retry counter. -/
+theorem decSlot_fwd {fp : FdlParams} {op : OpState} {x y : Option (Option Peripheral)} (h : DecSlot fp op x y) :
+    (x = none → y = none) ∧ (x = some none → y = some none) ∧
+    (∀ p, x = some (some p) → ∃ p', y = some (some p') ∧ p' = { p with retry := p'.retry }) := by
+  induction h with
+  | refl x => exact ⟨id, id, fun p hp => ⟨p, hp, rfl⟩⟩
+  | step p y _ _ ih =>
+    refine ⟨(by intro h; cases h), (by intro h; cases h), ?_⟩
+    intro q hq
+    simp only [Option.some.injEq] at hq
+    subst hq
+    obtain ⟨p', hp', he⟩ := ih.2.2 _ rfl
+    exact ⟨p', hp', by rw [he]⟩
+
+theorem decSlot_back {fp : FdlParams} {op : OpState} {x y : Option (Option Peripheral)} (h : DecSlot fp op x y)
+    {p' : Peripheral} (hy : y = some (some p')) : ∃ p, x = some (some p) ∧ p' = { p with retry := p'.retry } := by
+  have hf := decSlot_fwd h
+  cases x with
+  | none => rw [hf.1 rfl] at hy; cases hy
+  | some o =>
+    cases o with
+    | none => rw [hf.2.1 rfl] at hy; cases hy
+    | some p =>
+      obtain ⟨q, hq, he⟩ := hf.2.2 p rfl
+      rw [hq] at hy
+      simp only [Option.some.injEq] at hy
+      subst hy
+      exact ⟨p, rfl, he⟩
+
+
+@[simp] theorem reqKind_diag (fp : FdlParams) (p : Peripheral) : reqKind (p.diagHeader fp) = .diag := by
+  simp [reqKind, Peripheral.diagHeader, SAP_SLAVE_DIAGNOSIS, SAP_MASTER_MS0]
+@[simp] theorem reqKind_setPrm (fp : FdlParams) (p : Peripheral) : reqKind (p.setPrmHeader fp) = .setPrm := by
+  simp [reqKind, Peripheral.setPrmHeader, SAP_SLAVE_SET_PRM, SAP_MASTER_MS0]
+@[simp] theorem reqKind_chkCfg (fp : FdlParams) (p : Peripheral) : reqKind (p.chkCfgHeader fp) = .chkCfg := by
+  simp [reqKind, Peripheral.chkCfgHeader, SAP_SLAVE_CHK_CFG, SAP_MASTER_MS0]
+@[simp] theorem reqKind_dx (fp : FdlParams) (p : Peripheral) : reqKind (p.dxHeader fp) = .dx := by
+  simp [reqKind, Peripheral.dxHeader, SAP_DATA_EXCHANGE]
+
+/-- Service of the request a peripheral sends, by state. -/
+theorem send_kind {fp : FdlParams} {op : OpState} {p p' : Peripheral} {h : Header} {pdu : Bytes}
+    (hs : TxSpec fp op p (.send p' h pdu)) :
+    (reqKind h = .diag ∧ pdu = [] ∧ (p.state = .offline ∨ p.state = .validateConfig ∨
+        ((p.state = .preDataExchange ∨ p.state = .dataExchange) ∧ p.diagNeeded = true))) ∨
+    (reqKind h = .setPrm ∧ p.state = .waitForParam ∧ ∃ up, p.opts.userPrm = some up ∧ pdu = setPrmPdu fp p.opts up) ∨
+    (reqKind h = .chkCfg ∧ p.state = .waitForConfig ∧ p.opts.config = some pdu) ∨
+    (reqKind h = .dx ∧ (p.state = .preDataExchange ∨ p.state = .dataExchange) ∧ p.diagNeeded = false ∧
+        pdu = dxPdu op p.piQ) := by
+  cases hs with
+  | probe _ hs _ => left; exact ⟨by simp, rfl, Or.inl hs⟩
+  | setPrm up _ hs hu => right; left; exact ⟨by simp, hs, up, hu, rfl⟩
+  | chkCfg c _ hs hu => right; right; left; exact ⟨by simp, hs, hu⟩
+  | validate _ hs => left; exact ⟨by simp, rfl, Or.inr (Or.inl hs)⟩
+  | dxDiag _ hs hd => left; exact ⟨by simp, rfl, Or.inr (Or.inr ⟨hs, hd⟩)⟩
+  | dx _ hs hd => right; right; right; exact ⟨by simp, hs, hd, rfl⟩
+
+
+/-! ## Process images -/
+
+def slotPiI (m : Master) (j : Nat) : Option Bytes := (m.slots.getD j none).map (·.piI)
+def slotPiQ (m : Master) (j : Nat) : Option Bytes := (m.slots.getD j none).map (·.piQ)
+
+theorem getD_of_getElem? {l : List (Option Peripheral)} {j : Nat} : l.getD j none = (l[j]?).getD none := by
+  rw [List.getD_eq_getElem?_getD]
+
+theorem tx_images {fp : FdlParams} {op : OpState} {p : Peripheral} {r : PTx} (h : TxSpec fp op p r) :
+    ∀ p', r.after = some p' → p'.piI = p.piI ∧ p'.piQ = p.piQ ∧ p'.address = p.address := by
+  intro p' hp'
+  cases h <;> (simp only [PTx.after, Option.some.injEq] at hp'; subst hp'; exact ⟨rfl, rfl, rfl⟩)
+
+/-- What `receive_reply` does to the images: `pi_q` never changes; `pi_i` only in the `dxData` case. -/
+theorem rx_images {p p' : Peripheral} {t : Telegram} {ev : Option PEvent} (h : RxSpec p t p' ev) :
+    p'.piQ = p.piQ ∧ p'.address = p.address ∧
+    (p'.piI = p.piI ∨
+      ∃ hd pdu st ss, t = .data hd pdu ∧ (p.state = .preDataExchange ∨ p.state = .dataExchange) ∧
+        p.diagInFlight = false ∧ hd.fc = .response st ss ∧ dataOkStatus ss = true ∧
+        hd.dsap = none ∧ hd.ssap = none ∧ pdu.length = p.piI.length ∧ p'.piI = pdu) := by
+  cases h
+  case dxData hd pdu st ss h1 h2 h3 h4 h5 h6 h7 =>
+    exact ⟨rfl, rfl, Or.inr ⟨hd, pdu, st, ss, rfl, h1, h2, h3, h4, h5, h6, h7, rfl⟩⟩
+  all_goals exact ⟨rfl, rfl, Or.inl rfl⟩
+
+theorem slot_of_declined {fp : FdlParams} {m m' : Master} (hD : Declined fp m m') (j : Nat) :
+    slotPiI m' j = slotPiI m j ∧ slotPiQ m' j = slotPiQ m j := by
+  have hf := decSlot_fwd (hD.slot j)
+  unfold slotPiI slotPiQ
+  rw [getD_of_getElem?, getD_of_getElem?]
+  cases hx : m.slots[j]? with
+  | none => rw [hf.1 hx]; exact ⟨rfl, rfl⟩
+  | some o =>
+    cases o with
+    | none => rw [hf.2.1 hx]; exact ⟨rfl, rfl⟩
+    | some p =>
+      obtain ⟨p', hp', he⟩ := hf.2.2 p hx
+      rw [hp']
+      simp only [Option.getD_some, Option.map_some]
+      rw [he]; exact ⟨rfl, rfl⟩
+
+theorem slot_of_set {m : Master} {i : Nat} {p q : Peripheral} (hi : m.slots[i]? = some (some p))
+    (m' : Master) (hs : m'.slots = m.slots.set i (some q)) (j : Nat) :
+    (q.piI = p.piI → slotPiI m' j = slotPiI m j) ∧ (q.piQ = p.piQ → slotPiQ m' j = slotPiQ m j) ∧
+    (j ≠ i → m'.slots[j]? = m.slots[j]?) ∧ (j = i → slotPiI m' j = some q.piI ∧ slotPiQ m' j = some q.piQ) := by
+  have hl : i < m.slots.length := by
+    rcases Nat.lt_or_ge i m.slots.length with h | h
+    · exact h
+    · rw [List.getElem?_eq_none h] at hi; cases hi
+  unfold slotPiI slotPiQ
+  rw [getD_of_getElem?, getD_of_getElem?, hs, List.getElem?_set]
+  by_cases hij : i = j
+  · subst hij
+    simp only [hl, if_true, hi, Option.getD_some, Option.map_some, Option.some.injEq]
+    exact ⟨fun h => h, fun h => h, fun h => absurd rfl h, fun _ => by simp⟩
+  · simp only [hij, if_false]
+    exact ⟨fun _ => by simp, fun _ => by simp, fun _ => by simp, fun h => absurd h.symm hij⟩
+
+
+/-- `reply_elim` as an existential statement. -/
+theorem reply_form {fp : FdlParams} {g g' : G} (hI : Inv fp g) {a : UInt8} {t : Telegram}
+    (h : gstep fp g (.reply a t) = .ok g') :
+    ∃ index i p p' ev, g.out = some a ∧ g.m.cycle = .dx index ∧ curSlot g.m.slots index = some (i, p) ∧
+      p.address = a ∧ replyAllowed fp.address a t = true ∧ RxSpec p t p' ev ∧
+      g' = { g with m := afterReply g.m index i p p' ev, out := none,
+                    collected := g.collected && !g.dirty, dirty := true,
+                    o := .replied i ev, sg := g.upd i (sgReply t p p'),
+                    produced := g.produced ++ (ev.map fun e => ({ index := i, address := p.address, ev := e } : HEvent)).toList } := by
+  refine reply_elim hI h (fun g' => ∃ index i p p' ev, g.out = some a ∧ g.m.cycle = .dx index ∧
+      curSlot g.m.slots index = some (i, p) ∧
+      p.address = a ∧ replyAllowed fp.address a t = true ∧ RxSpec p t p' ev ∧
+      g' = { g with m := afterReply g.m index i p p' ev, out := none,
+                    collected := g.collected && !g.dirty, dirty := true,
+                    o := .replied i ev, sg := g.upd i (sgReply t p p'),
+                    produced := g.produced ++ (ev.map fun e => ({ index := i, address := p.address, ev := e } : HEvent)).toList }) ?_
+  intro index i p p' ev h1 h2 h3 h4 h5 h6
+  exact ⟨index, i, p, p', ev, h1, h2, h3, h4, h5, h6, rfl⟩
+
+
+/-- `DataExchanged` is produced exactly by an acceptable reply to an outstanding Data_Exchange request. -/
+theorem rx_event_iff {p p' : Peripheral} {t : Telegram} {ev : Option PEvent} (h : RxSpec p t p' ev) :
+    ev = some .dataExchanged ↔
+      ((p.state = .preDataExchange ∨ p.state = .dataExchange) ∧ p.diagInFlight = false ∧
+        acceptable .dx p.piI.length t = true) := by
+  cases h
+  case dxSaps hd pdu st ss hs hdf hfc hok hsap =>
+    simp only [reduceCtorEq, acceptable, hfc, hok, Bool.true_and, Bool.and_eq_true, beq_iff_eq, false_iff, not_and]
+    intro _ _ h1
+    rcases hsap with h | h
+    · exact absurd h1.1 h
+    · exact absurd h1.2 h
+  all_goals simp_all [acceptable, dataOkStatus]
+
+
 end PV.Dp
